@@ -172,9 +172,9 @@ PROPS = {
     "C08": {
         "level": "proof",
         "lean_modules": ["SqlizeModel.Props.C08"],
-        "theorems": ["Sqlize.C08.calls_pure", "Sqlize.C08.up_pure", "Sqlize.C08.down_pure", "Sqlize.migrate_state_of_stable"],
-        "suites": [{"name": "calls", "repeat_processes": 1, "repeat_processes_thorough": 5}, {"name": "pair", "repeat_processes": 1, "repeat_processes_thorough": 3}],
-        "corr_points": ["StringUp", "StringDown", "StringUp-2nd", "state-diff"],
+        "theorems": ["Sqlize.C08.calls_pure", "Sqlize.C08.pure_of_inv", "Sqlize.C08.arrange_identity", "Sqlize.C08.up_pure", "Sqlize.C08.down_pure", "Sqlize.migrate_state_of_stable", "Sqlize.sortByVal_canon"],
+        "suites": [{"name": "calls", "repeat_processes": 1, "repeat_processes_thorough": 5}, {"name": "pair", "repeat_processes": 1, "repeat_processes_thorough": 3}, {"name": "script"}],
+        "corr_points": ["StringUp", "StringDown", "StringUp-2nd", "state-diff", "state-after-outputs", "dump", "dump-down"],
         "rule": "calls suite: states from the pair space (loaded or diffed, 3 dialects x case x field-order option); all ordered pairs (quick) / "
                 "triples (thorough) of the 8 output methods on 30-40 states plus random sequences of 3..7 calls, some preceded by output calls on both "
                 "sides *before* Diff; each call's bytes are compared with the bytes a fresh instance in the same state returns. Both suites are "
@@ -182,8 +182,9 @@ PROPS = {
                 "against the model. non-trivial = every sequence; distinct by (state, sequence)",
         "trusted_base": COMMON_TB + PAIR_TB + ["MermaidJs*/ArvoSchema are compared with a fresh instance's output here (their models are in C14/C15)"],
         "assumptions": ["old is not re-used after Diff"],
-        "explanation": "Proved: on arrange-stable states output calls return the state unchanged, so every call sequence is pure "
-                       "(Sqlize.C08.calls_pure); stability of reachable states and process-independence are decided by the calls suite and fresh-process repeats.",
+        "explanation": "Proved: under the map invariant Arrange is the identity for every map iteration order, hence output calls return the state "
+                       "unchanged and every call sequence is pure (Sqlize.C08.pure_of_inv); that reachable states satisfy the invariant and "
+                       "process-independence are decided by the calls / script suites (white-box maps, state after outputs) and fresh-process repeats.",
     },
 
     "C12": {
